@@ -207,6 +207,8 @@ ADAPTERS = {
     "jsonfile-url+fileobj": ["x1", "y2", "Xn", "B"],
     "avro-url+fileobj": ["x1", "y2", "Xn", "x3"],
     "fileobj": ["x1", "y2", "Xn", "B"],
+    "concat": ["x1", "y2", "Xn", "B"],
+    "concat.gz": ["x1", "y2", "Xn", "B"],
 }
 ASEL = ["r.n == 1", "r.n > 1", "r.a == 'x'", "'x' in r.a", "lower(r.a) == 'x'", "any(c == 'x' for c in r.a)", "Type.string == 'x'", "r.zz == 1",
         "name(r) == 't/a'", "field_contains(r, ['a'], ['X'])", "r.n in [1, 2]", "not r.n", "r.n == '1'", "r.a == 'x' and r.n", "True", "False",
@@ -223,6 +225,26 @@ def write_source(adapter, records):
     d = os.environ["VERIF_SCRATCH"]
     _n[0] += 1
     base = os.path.join(d, "c10-%d-%d" % (os.getpid(), _n[0]))
+    if adapter in ("concat", "concat.gz"):
+        # `cat part1 part2`: two complete streams (each with its own header and descriptors) in one source
+        import gzip
+
+        p = base + (".records" if adapter == "concat" else ".records.gz")
+        half = (len(records) + 1) // 2
+        blob = b""
+        for part in (records[:half], records[half:]):
+            part_path = base + ".part"
+            w = RecordWriter(part_path + ".records")
+            for r in part:
+                w.write(r)
+            w.flush()
+            w.close()
+            data = open(part_path + ".records", "rb").read()
+            os.unlink(part_path + ".records")
+            blob += gzip.compress(data) if adapter == "concat.gz" else data
+        with open(p, "wb") as f:
+            f.write(blob)
+        return p
     if adapter in ("streamreader", "path", "stream-url+fileobj", "fileobj"):
         p, uri = base + ".records", base + ".records"
     elif adapter == "jsonfile-url+fileobj":
